@@ -6,6 +6,7 @@ import RactorModel.Lemmas.RegistryConcPid
 import RactorModel.Lemmas.RegistryThreads
 import RactorModel.Lemmas.RegistryWindow
 import RactorModel.Lemmas.RegistryThreadsSim
+import RactorModel.Lemmas.RegistryThreadsEntry
 
 /-!
 # C10 — a name maps to at most one live actor and is released on exit
@@ -1094,6 +1095,41 @@ theorem whereIs_sound_conc_via_threads (ops : List Reg2.Op) (hord : Reg2.Ordered
   rw [← (hs.cells a).2.2.1]
   exact whereIs_sound_threads (Reg3.ofOps ops) hd n a (by rw [Reg3.whereIs, hs.names n]; exact h)
 
+
+/-! ### clauses 1 and 4 with several callers -/
+
+/-- whoever a lookup returns owns the name — constructed with it, local, between its own insert and the removal by
+whichever caller was elected (or the rollback) — and two such cells never share a name -/
+theorem name_has_one_owner_threads (ops : List Reg3.Op) (n a : Nat)
+    (h : Reg3.whereIs (Reg3.run Reg3.init ops) n = some a) :
+    ((Reg3.run Reg3.init ops).cell a).name = some n ∧ ((Reg3.run Reg3.init ops).cell a).remote = false ∧
+    ∀ b, ((Reg3.run Reg3.init ops).cell b).name = some n → Reg3.Holds (Reg3.run Reg3.init ops) b → b = a := by
+  have I := threads_invariant ops
+  have E := Reg3.EInv.run Reg3.TInv.init Reg3.SufInv.init Reg3.EInv.init ops
+  obtain ⟨h1, h2, _⟩ := I.owner n a h
+  refine ⟨h1, h2, fun b hb1 hb2 => ?_⟩
+  have := E b n hb1 hb2
+  rw [Reg3.whereIs] at h; rw [h] at this; exact (Option.some.inj this).symm
+
+/-- clause 4 with several callers: from the return of the constructor until SOME caller publishes `≥ Stopping`,
+`where_is` returns the cell — whatever any number of threads do with the cell meanwhile (`publish` of lower
+statuses, late calls that lose) and whatever other cells do under the same name -/
+theorem whereIs_visible_threads (ops : List Reg3.Op) (a n : Nat)
+    (hb : ((Reg3.run Reg3.init ops).cell a).born = true) (hl : ((Reg3.run Reg3.init ops).cell a).remote = false)
+    (hn : ((Reg3.run Reg3.init ops).cell a).name = some n)
+    (hst : ((Reg3.run Reg3.init ops).cell a).status < Reg2.stopping) :
+    Reg3.whereIs (Reg3.run Reg3.init ops) n = some a := by
+  have I := threads_invariant ops
+  have E := Reg3.EInv.run Reg3.TInv.init Reg3.SufInv.init Reg3.EInv.init ops
+  refine E a n hn ⟨hl, .inr (.inr ⟨I.bornCons a hb, ?_⟩)⟩
+  have hel : ((Reg3.run Reg3.init ops).cell a).el = none := by
+    cases he : ((Reg3.run Reg3.init ops).cell a).el with
+    | none => rfl
+    | some t =>
+      have := (I.elected a).2 (by rw [he]; simp)
+      exact absurd this (Nat.not_le.mpr hst)
+  simp [Reg3.elHasName, hel]
+
 end C10
 
 #print axioms C10.wherePid_sound_conc
@@ -1114,3 +1150,5 @@ end C10
 #print axioms C10.window_halves_compose
 #print axioms C10.reg2_is_reg3_with_one_caller
 #print axioms C10.whereIs_sound_conc_via_threads
+#print axioms C10.name_has_one_owner_threads
+#print axioms C10.whereIs_visible_threads
